@@ -18,9 +18,19 @@ CFG = {
     "rule": "exhaustive in both tiers: all 6^4 assignments of {absent, dir, file, symlink->dir, symlink->file, dangling} to "
             "bin/lib/include/pkgconfig x 3 (thorough 4) explicit environments (none; append+delimiter on PATH, override LD_LIBRARY_PATH, "
             "launch prepend CPATH; build override/launch append/process prepend on PATH, default on LD_LIBRARY_PATH; custom delimiters); each case "
-            "probes apply() for 5 scopes x 2 starting envs (unset / every variable set) and runs 3 read->write cycles with env* snapshots. "
-            "plus 600 (quick) / 6 000 (thorough) sampled cases: random kinds x random explicit entries on the path variables (all behaviours, scopes incl. process types named build/launch, multi-byte delimiters); probe scopes include Process(build) and Process(launch). "
-            "non-trivial = at least one of the four paths is a directory or a symlink to one; distinct = distinct input line",
+            "probes apply() for 7 scopes (all, build, launch, process web/worker/build/launch) x 2 starting envs (unset / every variable set) and "
+            "runs 3 read->write cycles with env* snapshots; plus 600 (quick) / 6 000 (thorough) sampled cases of that shape. Further families (a "
+            "third starting environment given by the case; `$L` in a value stands for the layer's own path): 'kinds2' six more ways of (not) being "
+            "a directory - non-empty directory, symlink chain, relative symlink, directory with mode 000, symlink loop, FIFO - in every position; "
+            "'start' every value of a pool (empty, ':', leading / trailing / doubled separator, the layer's own bin / lib / include directory "
+            "alone or inside a list, non-UTF-8, blank, ';', line break, 300 bytes) as the starting value of all path variables x 4 kind vectors x "
+            "2 explicit environments; 'selfref' explicit entries whose value is the implicit entry itself, every behaviour x scope, with and "
+            "without the same value in the starting environment; 'nearname' 17 variable names one edit from the path variables (case, suffix, "
+            "prefix, trailing dot / blank / non-UTF-8 byte, '=' inside, 200 characters) with explicit entries, probes and starting values; "
+            "'big' 17/21/33/65/129 (thorough 15..200) explicit entries over four scopes among the path variables; 'rnd2' 700 (quick) / 6 000 "
+            "(thorough) sampled cases over all twelve kinds, names from the path variables and the near names, values and random starting "
+            "environments from the pool, one in six through a symlinked layer directory. "
+            "non-trivial = at least one of the four paths is a directory or leads to one; distinct = distinct input line",
     "trusted_base": ["Spec/LayerPaths.lean is my reading of the CNB layer-paths table",
                      "Gen.layerPathSpecs / Gen.pathListSeparator regenerated from layer_env.rs (incl. the is_dir guard and Prepend+Delimiter shape check)"],
     "assumptions": COMMON_ASSUME,
